@@ -9,7 +9,9 @@ INVARIANT Bounded
 INVARIANT NoForceDuringCollect
 INVARIANT ExactlyOncePerMatch
 INVARIANT ErrorHasContext
+INVARIANT GlobalsRule
 INVARIANT Reported
 PROPERTY AttrsStable
 PROPERTY HistoryKeepsGraph
 PROPERTY TerminalAbsorbing
+PROPERTY GlobalsReadOnly
